@@ -80,7 +80,8 @@ REQUIRED_REACH = ["hessian-path", "composite-x-tuple", "kwargs-normalised", "fac
                   "cell-subset", "jax-det-3x3", "jax-det-2x2", "jax-mul-matmat", "jax-mul-matvec",
                   "jax-prod-3", "np-inv-3x3", "np-inv-2x2", "np-curl-3d", "np-curl-2d-scalar", "np-curl-2d-vector",
                   "np-curl-attr", "np-div-attr", "np-div-trace", "np-div-1d", "point:none", "point:zero",
-                  "point:unit", "point:large", "complex-valued-form"]
+                  "point:unit", "point:large", "complex-valued-form",
+                  "nonlinear-form-object-reused"]
 
 NMAX = 150          # dense finite differences only up to this many unknowns
 RT_RHS = 1e-11      # relative to the assembled absolute residual density
@@ -731,6 +732,75 @@ def fam_complex(ctx, k):
     ctx.sample(dict(tag, N=int(N)), per_family=1)
 
 
+def fam_reuse(ctx, k):
+    """One NonlinearForm object assembled on several bases in turn (a mesh, its translated/scaled/mirrored copies of
+    equal shape, cell and facet bases): the default fields w.x, w.h, w.n belong to the basis of the call.  Matrix and
+    right-hand side against hand-linearised ordinary forms assembled on that basis."""
+    import skfem
+    from skfem.autodiff import NonlinearForm
+    from skfem.autodiff.helpers import dot as jdot, grad as jgrad
+    import jax.numpy as jnp
+    from skfem.helpers import dot as ndot, grad as ngrad
+    rng = ctx.rng()
+    kind = ("tri", "quad", "line", "tet")[k % 4]
+    ename = {"tri": "ElementTriP2", "quad": "ElementQuad1", "line": "ElementLineP2", "tet": "ElementTetP1"}[kind]
+    rec = EL.by_name(ename)
+    mc = small_mesh(ctx, rng, kind, ctx.scale(5, 10))
+    m0 = mc.mesh
+    d = m0.dim()
+    facet = (k // 4) % 2 == 1 and kind != "line"
+    a, b, c = (float(rng.integers(1, 9)) / 4 for _ in range(3))
+
+    if facet:
+        def F(u, v, w):
+            return a * w.n[0] * u ** 2 * v + b * (1.0 + w.x[0]) * u * v - c * w.h * v
+
+        def dF(u, v, w):
+            return 2 * a * w.n[0] * w["prev"] * u * v + b * (1.0 + w.x[0]) * u * v
+
+        def R(v, w):
+            return a * w.n[0] * w["prev"] ** 2 * v + b * (1.0 + w.x[0]) * w["prev"] * v - c * w.h * v
+    else:
+        def F(u, v, w):
+            return a * (1.0 + w.x[0]) * u ** 2 * v + b * w.h * jdot(jgrad(u), jgrad(v)) - c * jnp.sin(w.x[d - 1]) * v
+
+        def dF(u, v, w):
+            return 2 * a * (1.0 + w.x[0]) * w["prev"] * u * v + b * w.h * ndot(ngrad(u), ngrad(v))
+
+        def R(v, w):
+            return (a * (1.0 + w.x[0]) * w["prev"] ** 2 * v + b * w.h * ndot(ngrad(w["prev"]), ngrad(v))
+                    - c * np.sin(w.x[d - 1]) * v)
+
+    copies = [("original", m0),
+              ("translated", m0.translated(tuple(float(v) for v in rng.integers(1, 5, size=d) / 2))),
+              ("scaled", m0.scaled(tuple(float(v) for v in rng.choice([0.5, 2.0, 3.0], size=d)))),
+              ("original-again", m0)]
+    if d > 1:
+        n = [0.0] * d
+        n[0] = 1.0
+        copies.insert(2, ("mirrored", m0.mirrored(tuple(n), tuple([0.25] * d))))
+    form = NonlinearForm(F)
+    order = [0] + [int(i) for i in rng.permutation(np.arange(1, len(copies)))]
+    x = rng.uniform(-1, 1, size=skfem.CellBasis(m0, rec.make()).N)
+    for pos in order:
+        label, m = copies[pos]
+        basis = skfem.FacetBasis(m, rec.make()) if facet else skfem.CellBasis(m, rec.make())
+        J, rhs = form.assemble(basis, x=x)
+        prev = basis.interpolate(x)
+        A = skfem.BilinearForm(dF).assemble(basis, prev=prev).toarray()
+        r = skfem.LinearForm(R).assemble(basis, prev=prev)
+        tag = {"layout": "reuse:" + ("facet" if facet else "cell"), "elem": ename, "mesh": type(m).__name__, "copy": label,
+               "sequence": [copies[i][0] for i in order]}
+        sA = float(np.abs(A).max()) + 1e-300
+        ctx.close("jacobian-vs-hand-linearised", np.asarray(J.toarray()), A, rtol=RT_HAND, scale=sA,
+                  mech="form-object-reused-on-another-basis:jacobian", **tag)
+        ctx.close("rhs-is-minus-residual", rhs, -r, rtol=1e-10, scale=float(np.abs(r).max()) + 1e-300,
+                  mech="form-object-reused-on-another-basis:residual", **tag)
+    ctx.reached("nonlinear-form-object-reused")
+    ctx.nontrivial("reuse", kind, facet, tuple(order))
+    ctx.sample({"elem": ename, "kind": kind, "facet": facet, "sequence": [copies[i][0] for i in order]}, per_family=1)
+
+
 # ===================================================================== Part B: helpers
 from .c20_helpers import fam_helpers_np, fam_helpers_jax, fam_helpers_fields, fam_helper_exports, fam_edge  # noqa: E402
 
@@ -747,6 +817,7 @@ FAMILIES = [
     Family("nl-energy", fam_energy, quick=8, thorough=128, budget={"quick": 30, "thorough": 500}),
     Family("nl-facet", fam_facet, quick=6, thorough=96, budget={"quick": 20, "thorough": 400}),
     Family("nl-linear", fam_linear, quick=8, thorough=128, budget={"quick": 20, "thorough": 400}),
+    Family("nl-reuse", fam_reuse, quick=8, thorough=160, budget={"quick": 30, "thorough": 400}),
     Family("nl-complex", fam_complex, quick=8, thorough=160, budget={"quick": 30, "thorough": 400}),
     Family("nl-directed", fam_directed, quick=4, thorough=64, budget={"quick": 15, "thorough": 300}),
     Family("helpers-np", fam_helpers_np, quick=16, thorough=960, budget={"quick": 15, "thorough": 200}),
